@@ -33,10 +33,12 @@ macro_rules! harnesses {
 
 pub mod emit;
 pub mod number;
+pub mod strslice;
 
 pub fn registry() -> Vec<(&'static str, fn(&mut ReplaySrc))> {
     let mut r = Vec::new();
     r.extend(number::registry());
     r.extend(emit::registry());
+    r.extend(strslice::registry());
     r
 }
